@@ -450,6 +450,25 @@ def run_transfer(case, ctx):
                     ctx.violation(K + "trainable-not-retrained/%s" % ("copy" if copy_est else "in-place"),
                                   "trainable=True: transform does not come from a model trained on the last fit's "
                                   "data", cfg=cfg, history=history)
+            if not trainable:
+                # history: the user trains the wrapped estimator object again (in place, other rows) and fits the
+                # transfer again: transform returns what the wrapped estimator returns now
+                try:
+                    numpy.random.seed(1)
+                    e.fit(X2, y2) if kind != "tr" else e.fit(X2)
+                    tt.fit(X, y) if kind != "tr" else tt.fit(X)
+                    got = numpy.asarray(tt.transform(Q))
+                    exp = numpy.asarray(getattr(e, real_method)(Q))
+                    ctx.hit("transfer.wrapped_estimator_refitted")
+                    if got.shape != exp.shape or not numpy.array_equal(got, exp):
+                        ctx.violation(K + "transform-differs/wrapped-estimator-refitted-in-place", "the wrapped estimator "
+                                      "was fitted again in place and the transfer fitted again: transform is not the "
+                                      "wrapped estimator's %s" % real_method, cfg=cfg)
+                except AssertionError:
+                    ctx.excluded("self-check refuses the model (known finding, counted where it is first seen)")
+                except Exception as ex:
+                    ctx.violation(K + "raised/%s" % type(ex).__name__, "wrapped estimator refitted in place: %s" % (
+                        str(ex)[:150]), cfg=cfg)
             if len([s for s in history if s != "transform"]) >= 2:
                 ctx.nontriv("transfer", cfg, history)
         ctx.cls("model=" + name)
